@@ -47,7 +47,7 @@ PROPS = {
              "one simulated name-service table per run (7 bits: tcp/udp/ip protocols, http/ftp/dns services, a service whose protocol is missing), two stack paints per URL; "
              "oracle = reference splitter + port rule + canonical unparse + parse(unparse) round trip + identical components under both paints + allocator ledger; "
              "distinct = distinct trace hash; non-trivial = >= 3 URLs",
-             probes=["wellformed_url", "proto_is_protocol_name", "service_found_tcp", "service_found_udp_only", "service_proto_missing", "colon_in_password", "query_without_path", "assembled_url_roundtrip"]),
+             probes=["wellformed_url", "proto_is_protocol_name", "service_found_tcp", "service_found_udp_only", "service_proto_missing", "colon_in_password", "query_without_path", "assembled_url_roundtrip", "constructed_from_str_object", "service_with_five_digit_port"]),
     "C15": P(["plain5", "plain"], 30, 900,
              "plans = (a) 3..80 tracked malloc/calloc/realloc/strdup/free calls over 12 pointer slots (through spifmem_* and through the MALLOC/REALLOC/FREE macros as library code sees them), "
              "NULL/zero-size/unknown-pointer cases, untracked prefix at runtime level 4, simulated allocator underneath deciding moves and immediate address reuse; tracker table compared with a "
@@ -59,7 +59,7 @@ PROPS = {
              "plans = 1..20 comparisons per run: pairs of generated well-formed versions (N(.N)*[word[N]], words incl. snap/pre/alpha/beta/rc), near-identical pairs, and wild strings of "
              "letter/digit/punctuation runs with lengths biased to 1, 126..129, 200, 1000; arguments are exact-size simulated blocks; each comparison runs under two stack paints, after "
              "another call, in both argument orders and against itself; reference comparator on well-formed pairs where the statement defines the order; distinct = distinct trace hash; non-trivial = >= 3 comparisons",
-             probes=["wellformed_pair", "prerelease_word_pair", "suffix_vs_bare", "run_longer_than_127", "zero_padded_component"]),
+             probes=["wellformed_pair", "prerelease_word_pair", "suffix_vs_bare", "run_longer_than_127", "zero_padded_component", "exhaustive_short_pair"]),
     "C05": P(["asan", "asanz"], 30, 900,
              "plans = seeded programs (4..30 ops) over a pool of 6 objects drawn from 16 kinds (str, ustr, mbuff, objpair, tok, url, regexp, list/vector/map x array/linked_list/dlinked_list; "
              "vobj or str elements) with make/mutate/query/dup/done+re-init/del; allocator policies incl. garbage fill, immediate address reuse and far-apart placement; "
